@@ -47,6 +47,14 @@ CEX_GROUPS = {
     "eq": ["cmp_struct"], "lt": ["cmp_struct"], "count": ["e2e_fn"], "value": ["e2e_fn"], "length": ["e2e_fn"], "TestFunction::apply": ["e2e_fn"],
     "Filter::select_children": ["e2e_filter"], "Filter::process_elem": ["e2e_filter"], "FilterAtom::process": ["e2e_filter"], "Filter::filter_item": ["e2e_filter"],
     "Filter::process": ["e2e_filter"], "Filter::process_selector": ["e2e_filter"], "invert_bool": ["e2e_filter"], "Test::process": ["e2e_filter"],
+    "process_key": ["name_lookup", "e2e"], "process_descendant": ["descendant", "e2e"], "process_selectors": ["selectors", "e2e"], "process_wildcard": ["e2e"],
+    "eq_json": ["cmp_struct", "e2e_cmp"], "eq_arrays": ["cmp_struct"], "eq_ref_to_array": ["cmp_struct"], "Comparison::process": ["e2e_cmp"], "Comparable::process": ["e2e_cmp"],
+    "Literal::process": ["e2e_cmp"], "SingularQuery::process": ["e2e_cmp"], "SingularQuerySegment::process": ["e2e_cmp"], "Vec<SingularQuerySegment>::process": ["e2e_cmp"],
+    "FnArg::process": ["e2e_fn"], "TestFunction::process": ["e2e_fn"],
+    "js_path": ["text_plain", "text_union"], "js_path_vals": ["text_plain", "text_union"], "js_path_path": ["text_plain", "text_union"], "js_path_process": ["e2e"],
+    "JsonPath::query": ["text_plain", "text_union"], "JsonPath::query_only_path": ["text_plain", "text_union"], "JsonPath::query_with_path": ["text_plain", "text_union"],
+    "Data::flat_map": ["e2e"], "Data::reduce": ["e2e"], "State::flat_map": ["e2e"], "State::reduce": ["e2e"], "Segment::process": ["e2e"], "Selector::process": ["e2e"],
+    "Vec<Segment>::process": ["e2e"], "JpQuery::process": ["e2e"],
 }
 TARGET = os.path.join(VERIF, "native", "target")
 
